@@ -326,4 +326,340 @@ theorem inv_xrun {s : State} (inv : Inv s) (ops : List XOp) (safe : SafeRun s op
   | nil => exact inv
   | cons op rest ih => exact ih (inv_xstep inv op safe.1) safe.2
 
+/-! ## The owner (AbstractParametrizable): what is notified -/
+
+/-- the raw specification of a successful `matchParametersValues` -/
+theorem matchParametersValues_full {h : Store} {l src : List ObjId} (nd : (names h src).Nodup)
+    (ok : (matchParametersValues h l src).err = none) :
+    let r := matchParametersValues h l src
+    r.pos = diffPos h l 0 src ∧ SameShape h r.heap ∧ r.heap.next = h.next ∧
+    (∀ s ∈ src, ∀ t, find? h l (nameOf h s) = some t → (r.heap.get t).value = (h.get s).value) ∧
+    (∀ i, (∀ s ∈ src, find? h l (nameOf h s) ≠ some i) → r.heap.get i = h.get i) := by
+  have c : checkSome h l src = none := by
+    unfold matchParametersValues at ok; split at ok
+    · simp at ok
+    · assumption
+  simp only [matchParametersValues, c]
+  exact (matchSome_spec l src h 0 nd (checkSome_none.1 c)).2
+
+theorem setParametersValues_full {h : Store} {l src : List ObjId} (nd : (names h src).Nodup)
+    (ok : (setParametersValues h l src).err = none) :
+    let r := setParametersValues h l src
+    SameShape h r.heap ∧ r.heap.next = h.next ∧
+    (∀ s ∈ src, ∀ t, find? h l (nameOf h s) = some t → (r.heap.get t).value = (h.get s).value) ∧
+    (∀ i, (∀ s ∈ src, find? h l (nameOf h s) ≠ some i) → r.heap.get i = h.get i) := by
+  have c : checkSome h l src = none := by
+    unfold setParametersValues at ok; split at ok
+    · simp at ok
+    · assumption
+  simp only [setParametersValues, c]
+  exact (applySome_spec l src h nd (checkSome_none.1 c)).2
+
+/-- the list handed to `fireParameterChanged` by the owner's `matchParametersValues` -/
+theorem apMatch_fired (h : Store) (l src : List ObjId) (nd : (names h src).Nodup)
+    (ok : (matchParametersValues h l src).err = none) :
+    let r := apMatchParametersValues h l src
+    r.heap = (matchParametersValues h l src).heap ∧ r.err = none ∧
+    r.flag = (r.fired.getD []).isEmpty.not ∧ (r.fired = none ↔ r.fired.getD [] = []) ∧
+    (∀ s, s ∈ r.fired.getD [] ↔
+      ∃ p : Nat, ∃ t, src[p]? = some s ∧ find? h l (nameOf h s) = some t ∧ (h.get t).value ≠ (h.get s).value) := by
+  obtain ⟨h1, h2, h3, _⟩ := apMatchParametersValues_spec h l src nd
+  obtain ⟨f1, f2⟩ := h3 ok
+  have hp := (matchParametersValues_full nd ok).1
+  have hsel : ∀ s, s ∈ (diffPos h l 0 src).filterMap (src[·]?) ↔
+      ∃ p : Nat, ∃ t, src[p]? = some s ∧ find? h l (nameOf h s) = some t ∧ (h.get t).value ≠ (h.get s).value := by
+    intro s
+    rw [List.mem_filterMap]
+    constructor
+    · rintro ⟨p, hp', hs⟩
+      obtain ⟨_, s', t, e1, e2, e3⟩ := (mem_diffPos h l src 0 p).1 hp'
+      simp only [Nat.sub_zero] at e1
+      rw [hs] at e1; cases e1
+      exact ⟨p, t, hs, e2, e3⟩
+    · rintro ⟨p, t, e1, e2, e3⟩
+      exact ⟨p, (mem_diffPos h l src 0 p).2 ⟨Nat.zero_le _, s, t, by simpa using e1, e2, e3⟩, e1⟩
+  dsimp only
+  rw [h2, ok, f1, f2, hp]
+  refine ⟨h1, rfl, ?_, ?_, ?_⟩
+  · by_cases he : diffPos h l 0 src = []
+    · simp [he]
+    · have : (diffPos h l 0 src).filterMap (src[·]?) ≠ [] := by
+        obtain ⟨p, hp'⟩ := List.exists_mem_of_ne_nil _ he
+        obtain ⟨_, s', t, e1, e2, e3⟩ := (mem_diffPos h l src 0 p).1 hp'
+        intro c
+        have := (hsel s').2 ⟨p, t, by simpa using e1, e2, e3⟩
+        rw [c] at this; cases this
+      simp [he, this]
+  · by_cases he : diffPos h l 0 src = []
+    · simp [he]
+    · have : (diffPos h l 0 src).filterMap (src[·]?) ≠ [] := by
+        obtain ⟨p, hp'⟩ := List.exists_mem_of_ne_nil _ he
+        obtain ⟨_, s', t, e1, e2, e3⟩ := (mem_diffPos h l src 0 p).1 hp'
+        intro c
+        have := (hsel s').2 ⟨p, t, by simpa using e1, e2, e3⟩
+        rw [c] at this; cases this
+      simp [he, this]
+  · intro s
+    by_cases he : diffPos h l 0 src = []
+    · simp only [he, if_true, Option.getD_none]
+      rw [← hsel s, he]; simp
+    · simp only [he, if_false, Option.getD_some]
+      exact hsel s
+
+/-- every parameter of the target list whose value a successful source-iterating setter changed
+carries the name of a source entry whose value differed from it -/
+theorem changed_has_source {h h' : Store} {l src : List ObjId}
+    (hv : ∀ s ∈ src, ∀ t, find? h l (nameOf h s) = some t → (h'.get t).value = (h.get s).value)
+    (hu : ∀ i, (∀ s ∈ src, find? h l (nameOf h s) ≠ some i) → h'.get i = h.get i) (t : ObjId) :
+    (h'.get t).value = (h.get t).value ∨
+      ∃ s ∈ src, find? h l (nameOf h s) = some t ∧ (h.get t).value ≠ (h.get s).value := by
+  by_cases c : ∃ s ∈ src, find? h l (nameOf h s) = some t ∧ (h.get t).value ≠ (h.get s).value
+  · exact Or.inr c
+  · left
+    by_cases c2 : ∃ s ∈ src, find? h l (nameOf h s) = some t
+    · obtain ⟨s, hs, e⟩ := c2
+      rw [hv s hs t e]
+      by_contra hne
+      exact c ⟨s, hs, e, fun x => hne x.symm⟩
+    · rw [hu t (fun s hs e => c2 ⟨s, hs, e⟩)]
+
+theorem clauseOwnerAtomic_sound {s : State} (inv : Inv s) (op : Op) :
+    clauseOwnerAtomic op (step s op).2.out (step s op).2.fired = true := by
+  cases op with
+  | apSetAll k j =>
+    obtain ⟨_, h2, h3⟩ := apSetAllParametersValues_spec s.heap (s.lists k) (s.lists j)
+    simp only [clauseOwnerAtomic, step, stepAR, h2, h3]
+    cases (setAllParametersValues s.heap (s.lists k) (s.lists j)).err <;> simp [Out.isErr]
+  | apSetValues k j =>
+    obtain ⟨_, h2, h3⟩ := apSetParametersValues_spec s.heap (s.lists k) (s.lists j)
+    simp only [clauseOwnerAtomic, step, stepAR, h2, h3]
+    cases (setParametersValues s.heap (s.lists k) (s.lists j)).err <;> simp [Out.isErr]
+  | apMatch k j =>
+    obtain ⟨_, h2, _, h4⟩ := apMatchParametersValues_spec s.heap (s.lists k) (s.lists j) (inv.names j)
+    simp only [clauseOwnerAtomic, step, stepAR, h2]
+    cases e : (matchParametersValues s.heap (s.lists k) (s.lists j)).err with
+    | none => simp [Out.isErr]
+    | some x => simp [Out.isErr, h4 (by rw [e]; simp)]
+  | apSetValue k n v =>
+    obtain ⟨c, _⟩ := apSetParameterValue_fired s.heap (s.lists k) (s.pre k) n v (inv.wf k)
+    simp only [clauseOwnerAtomic, step, stepAR]
+    cases e : (apSetParameterValue s.heap (s.lists k) (s.pre k) n v).err with
+    | none => simp [Out.isErr]
+    | some x => simp [Out.isErr, c (by rw [e]; simp)]
+  | add k p | addPtr k p => simp only [clauseOwnerAtomic, step]; split <;> rfl
+  | share k j n => simp only [clauseOwnerAtomic, step]; split <;> rfl
+  | setParam k i p => simp only [clauseOwnerAtomic, step]; split <;> rfl
+  | testValues k j => simp only [clauseOwnerAtomic, step]; split <;> rfl
+  | delName k n => simp only [clauseOwnerAtomic, step]; split <;> rfl
+  | delIdx k i => simp only [clauseOwnerAtomic, step]; split <;> rfl
+  | which k n => simp only [clauseOwnerAtomic, step]; split <;> rfl
+  | getValue k n => simp only [clauseOwnerAtomic, step]; split <;> rfl
+  | subNames k j ns | subName k j n | subIdxs k j idx | subIdx k j i | shareSubNames k j ns | shareSubIdxs k j idx =>
+    simp only [clauseOwnerAtomic, step, stepSub]; split <;> rfl
+  | _ => rfl
+
+theorem clauseOwnerFired_sound {s : State} (inv : Inv s) (op : Op) :
+    clauseOwnerFired s op (step s op).2.out (step s op).2.fired (step s op).1 = true := by
+  cases op with
+  | apMatch k j =>
+    simp only [clauseOwnerFired, step, stepAR]
+    cases e : (matchParametersValues s.heap (s.lists k) (s.lists j)).err with
+    | some x =>
+      have := (apMatchParametersValues_spec s.heap (s.lists k) (s.lists j) (inv.names j)).2.1
+      rw [e] at this
+      simp [this, Out.isErr]
+    | none =>
+      obtain ⟨g1, g2, _, _, g5⟩ := apMatch_fired s.heap (s.lists k) (s.lists j) (inv.names j) e
+      obtain ⟨_, _, _, hv, hu⟩ := matchParametersValues_full (inv.names j) e
+      simp only [g2, Out.isErr, State.withHeap, g1]
+      rw [Bool.or_eq_true, Bool.or_eq_true]
+      right
+      rw [Bool.and_eq_true, List.all_eq_true, List.all_eq_true]
+      constructor
+      · intro x hx
+        obtain ⟨p, t, e1, e2, e3⟩ := (g5 x).1 hx
+        have hxs : x ∈ s.lists j := List.mem_of_getElem? e1
+        simp only [e2, Bool.and_eq_true, List.contains_iff_mem, decide_eq_true_eq]
+        exact ⟨hxs, e3, hv x hxs t e2⟩
+      · intro t _
+        rw [Bool.or_eq_true, decide_eq_true_eq, List.any_eq_true]
+        rcases changed_has_source hv hu t with c | ⟨x, hx, e2, e3⟩
+        · exact Or.inl c
+        · right
+          obtain ⟨p, hp⟩ := List.getElem?_of_mem hx
+          exact ⟨x, (g5 x).2 ⟨p, t, hp, e2, e3⟩, by simpa using (find?_some e2).2.symm⟩
+  | apSetValues k j =>
+    obtain ⟨h1, h2, h3⟩ := apSetParametersValues_spec s.heap (s.lists k) (s.lists j)
+    simp only [clauseOwnerFired, step, stepAR, h2, h3, State.withHeap, h1]
+    cases e : (setParametersValues s.heap (s.lists k) (s.lists j)).err with
+    | some x => simp [Out.isErr]
+    | none =>
+      obtain ⟨_, _, hv, hu⟩ := setParametersValues_full (inv.names j) e
+      simp only [Out.isErr, Bool.false_eq_true, if_false, if_true, Option.getD_some, Bool.false_or]
+      rw [List.all_eq_true]
+      intro t _
+      rw [Bool.or_eq_true, decide_eq_true_eq, List.any_eq_true]
+      rcases changed_has_source hv hu t with c | ⟨x, hx, e2, _⟩
+      · exact Or.inl c
+      · exact Or.inr ⟨x, hx, by simpa using (find?_some e2).2.symm⟩
+  | apSetAll k j =>
+    obtain ⟨h1, h2, h3⟩ := apSetAllParametersValues_spec s.heap (s.lists k) (s.lists j)
+    simp only [clauseOwnerFired, step, stepAR, h2, h3, State.withHeap, h1]
+    cases e : (setAllParametersValues s.heap (s.lists k) (s.lists j)).err with
+    | some x => simp [Out.isErr]
+    | none =>
+      have acc := (acceptsAll_iff _ _ _).1 ((setAllParametersValues_err_iff _ _ _).1 e)
+      simp only [Out.isErr, Bool.false_eq_true, if_false, if_true, Option.getD_some, Bool.false_or]
+      rw [List.all_eq_true]
+      intro t ht
+      rw [Bool.or_eq_true, decide_eq_true_eq, List.any_eq_true]
+      obtain ⟨j', e2, _⟩ := acc t ht
+      exact Or.inr ⟨j', (find?_some e2).1, by simpa using (find?_some e2).2⟩
+  | _ => rfl
+
+theorem clauseDeleteAny_sound (s : State) (op : Op) :
+    clauseDeleteAny s op (step s op).2.out (step s op).1 = true := by
+  cases op with
+  | delIdxs k idx =>
+    simp only [clauseDeleteAny, step, State.setList, if_true, Bool.and_eq_true, List.isSublist_iff_sublist]
+    refine ⟨deleteParametersIdx_sublist idx (s.lists k), ?_⟩
+    cases e : (deleteParametersIdx (s.lists k) idx).2 with
+    | some x => simp [Out.ofErr, Out.isErr]
+    | none =>
+      have := eraseDesc_length _ _ e
+      rw [List.length_reverse, sortNat_length] at this
+      simp only [Out.ofErr, Out.isErr, Bool.false_or, beq_iff_eq]
+      exact this
+  | _ => rfl
+
+theorem clauseNamespaceExact_sound (n : Nat) {s : State} (inv : Inv s) (op : Op) :
+    clauseNamespaceExact n s op (step s op).1 = true := by
+  cases op with
+  | apNamespace k p =>
+    have ndl : (s.lists k).Nodup := List.Nodup.of_map _ (inv.names k)
+    simp only [clauseNamespaceExact, step, if_true, Bool.and_eq_true, beq_iff_eq, Bool.or_eq_true,
+      List.all_eq_true, List.mem_range, sameLists]
+    refine ⟨⟨fun _ _ => trivial, trivial⟩, Or.inr (fun i _ => ?_)⟩
+    rw [setNamespace_get _ _ _ _ ndl i]
+    by_cases hi : i ∈ s.lists k <;> simp [hi]
+  | _ => rfl
+
+theorem clauseNamespace_sound (n : Nat) {s : State} (inv : Inv s) (op : Op)
+    (safe : (XOp.base op).nsSafe s) : clauseNamespace n s op (step s op).1 = true := by
+  cases op with
+  | apNamespace k p =>
+    simp only [clauseNamespace]
+    rw [allNamesUnique_of_inv (inv_setNamespace inv k p safe.1 safe.2)]; simp
+  | _ => rfl
+
+theorem clauseNamespaceGuarded_sound (n : Nat) {s : State} (inv : Inv s) (op : Op)
+    (safe : (XOp.base op).nsSafe s) : clauseNamespaceGuarded n s op (step s op).1 = true := by
+  cases op with
+  | apNamespace k p =>
+    simp only [clauseNamespaceGuarded]
+    rw [allNamesUnique_of_inv (inv_setNamespace inv k p safe.1 safe.2)]; simp
+  | _ => rfl
+
+/-! ### the new operations -/
+
+theorem lookupObjOk_sound (h : Store) (l : List ObjId) (n : String) :
+    lookupObjOk h l n (match parameterNamed h l n with
+      | .ok i => .obj i
+      | .error e => .base (.err e)) = true := by
+  unfold parameterNamed
+  cases e : find? h l n with
+  | some i =>
+    obtain ⟨p, hp, hn, hq⟩ := (find?_first h l n i).1 e
+    simp only [lookupObjOk, List.any_eq_true, List.mem_range, Bool.and_eq_true, beq_iff_eq,
+      List.all_eq_true, bne_iff_ne, ne_eq]
+    have hlt : p < l.length := by
+      by_contra c
+      rw [List.getElem?_eq_none (by omega)] at hp; cases hp
+    exact ⟨p, hlt, ⟨hp, hn⟩, hq⟩
+  | none =>
+    simp only [lookupObjOk, Bool.not_eq_true', List.contains_eq_mem, decide_eq_false_iff_not]
+    exact fun c => by
+      have := (hasParameter_iff h l n).2 c
+      rw [← find?_isSome, e] at this; cases this
+
+theorem xOfExcept_out (s : State) (r : Except Err ObjId) :
+    (xOfExcept s r).2.out = (match r with
+      | .ok i => .obj i
+      | .error e => .base (.err e)) := by
+  cases r <;> rfl
+
+theorem clauseXLookup_sound (s : State) (op : XOp) : clauseXLookup s op (xstep s op).2.out = true := by
+  cases op with
+  | nth k i =>
+    simp only [clauseXLookup, xstep, at?]
+    cases (s.lists k)[i]? <;> simp
+  | param k n =>
+    simp only [clauseXLookup, xstep, xOfExcept_out]
+    exact lookupObjOk_sound ..
+  | apParam k n =>
+    simp only [clauseXLookup, xstep, xOfExcept_out, apParameterNamed]
+    exact lookupObjOk_sound ..
+  | apHas k n =>
+    simp only [clauseXLookup, xstep, apHasParameter, beq_iff_eq]
+    congr 2
+    rw [Bool.eq_iff_iff, hasParameter_iff]; simp
+  | apGetValue k n =>
+    simp only [clauseXLookup, xstep, apGetParameterValue, getParameterValue]
+    cases find? s.heap (s.lists k) (s.pre k ++ n) <;> simp
+  | apAt k i =>
+    simp only [clauseXLookup, xstep, xOfExcept_out, apParameterAt]
+    cases (s.lists k)[i]? <;> simp
+  | apNameNoNs k n =>
+    simp only [clauseXLookup, xstep]
+    by_cases hp : startsWith n (s.pre k) = true
+    · simp [hp, prefix_nameWithoutNamespace hp]
+    · have hp' : startsWith n (s.pre k) = false := by simpa using hp
+      simp [hp', nameWithoutNamespace_other hp']
+  | apAddNull k => rfl
+  | _ => rfl
+
+theorem clauseXAssign_sound (n : Nat) {s : State} (inv : Inv s) (op : XOp) :
+    clauseXAssign n s op (xstep s op).2.out (xstep s op).1 = true := by
+  have nu : ∀ j, namesUniqueB s j = true := fun j => by simp [namesUniqueB, inv.names j]
+  cases op with
+  | setAllParamsA k j =>
+    simp only [clauseXAssign, xstep]
+    by_cases c : (s.lists k).all (fun i => hasParameter s.heap (s.lists j) (nameOf s.heap i)) = true
+    · obtain ⟨a1, a2, _, a4⟩ := setAllParametersA_spec s.heap (s.lists j) (s.lists k) (inv.names k) c
+      simp only [c, if_true, a1, Out.ofErr, beq_self_eq_true, Bool.true_and, nu, Bool.not_true, Bool.false_or,
+        Bool.and_eq_true, sameLists, List.all_eq_true, State.withHeap]
+      exact ⟨fun _ _ => trivial, decide_forall_lt a4⟩
+    · have e := (setAllParametersA_err_iff s.heap (s.lists j) (s.lists k))
+      have hne : (setAllParametersA s.heap (s.lists j) (s.lists k)).err ≠ none :=
+        fun x => c (List.all_eq_true.2 (e.1.1 x))
+      obtain ⟨x, hx⟩ := Option.ne_none_iff_exists'.1 hne
+      obtain ⟨rfl, hh⟩ := e.2 x hx
+      simp only [c, hx, Out.ofErr, hh, Bool.false_eq_true, if_false, beq_self_eq_true, Bool.true_and]
+      exact unchanged_of (fun _ => rfl) (fun _ _ => rfl)
+  | setParamsA k j =>
+    simp only [clauseXAssign, xstep]
+    by_cases c : (s.lists j).all (fun x => hasParameter s.heap (s.lists k) (nameOf s.heap x)) = true
+    · obtain ⟨a1, a2, _, a4⟩ := setParametersA_spec s.heap (s.lists k) (s.lists j) (inv.names j) c
+      simp only [c, if_true, a1, Out.ofErr, beq_self_eq_true, Bool.true_and, nu, Bool.not_true, Bool.false_or,
+        Bool.and_eq_true, sameLists, List.all_eq_true, State.withHeap]
+      exact ⟨fun _ _ => trivial, decide_forall_lt a4⟩
+    · have e := (setParametersA_err_iff s.heap (s.lists k) (s.lists j))
+      have hne : (setParametersA s.heap (s.lists k) (s.lists j)).err ≠ none :=
+        fun x => c (List.all_eq_true.2 (e.1.1 x))
+      obtain ⟨x, hx⟩ := Option.ne_none_iff_exists'.1 hne
+      obtain ⟨rfl, hh⟩ := e.2 x hx
+      simp only [c, hx, Out.ofErr, hh, Bool.false_eq_true, if_false, beq_self_eq_true, Bool.true_and]
+      exact unchanged_of (fun _ => rfl) (fun _ _ => rfl)
+  | _ => rfl
+
+theorem xstep_fired_none (s : State) (op : XOp) (nb : ∀ o, op ≠ .base o) : (xstep s op).2.fired = none := by
+  cases op with
+  | base o => exact absurd rfl (nb o)
+  | nth k i => simp only [xstep]; split <;> rfl
+  | apGetValue k n => simp only [xstep]; split <;> rfl
+  | param k n => simp only [xstep]; cases parameterNamed s.heap (s.lists k) n <;> rfl
+  | apParam k n => simp only [xstep]; cases apParameterNamed s.heap (s.lists k) (s.pre k) n <;> rfl
+  | apAt k i => simp only [xstep]; cases apParameterAt (s.lists k) i <;> rfl
+  | _ => rfl
+
 end Bpp.ParamList
